@@ -136,6 +136,7 @@ type FnCtx struct {
 	allocSeq    int
 	grounded    map[string]bool
 	usesPtrTag  bool
+	lensuresAt  int
 	home        *types.Package
 }
 
@@ -720,6 +721,7 @@ func (c *FnCtx) findLoops() {
 			}
 		}
 		c.autoInvariants(l)
+		c.autoFrameInvariants(l)
 		// labels: block comment of header e.g. "for.loop", "rangeindex.loop"; source label via DebugRef is not available, so
 		// labelled loops are matched through the contract key being the label of a `continue`/`break` target.
 		if c.con != nil {
@@ -993,6 +995,33 @@ func (c *FnCtx) autoInvariants(l *Loop) {
 		cl := &Clause{Kind: "invariant", Text: fmt.Sprintf("auto: %s %s %s", exprText(phi), op, exprText(init)), Loop: fmt.Sprint(l.Ord), Ord: 100 + n}
 		cl.Auto = func(get func(v interface{}) string) string {
 			return sx(op, get(phiV), get(initV))
+		}
+		l.Invs = append(l.Invs, cl)
+	}
+}
+
+// autoFrameInvariants: inside a function with a precise modifies clause every loop keeps the
+// frame: outside the declared locations the arrays it modifies are as at function entry.
+func (c *FnCtx) autoFrameInvariants(l *Loop) {
+	declared := c.declaredMods()
+	k := 0
+	for n, ms := range declared {
+		if !l.Mods[n] {
+			continue
+		}
+		n, ms := n, ms
+		k++
+		cl := &Clause{Kind: "invariant", Text: "auto frame: " + n, Loop: fmt.Sprint(l.Ord), Ord: 200 + k}
+		cl.Auto = func(get func(v interface{}) string) string { return "" }
+		cl.AutoState = func(st *State) string {
+			if !c.ensureArr(n) {
+				return "true"
+			}
+			f, ok := c.frameFormula(n, ms, st)
+			if !ok {
+				return "true"
+			}
+			return f
 		}
 		l.Invs = append(l.Invs, cl)
 	}
